@@ -58,6 +58,8 @@ type c17Case struct {
 	Mut    []string `json:"mutations,omitempty"`
 	Soup   []int    `json:"soup,omitempty"`
 	K      int      `json:"k,omitempty"`
+	// Flood: kind of frame a non-reading peer floods the server with (K of them)
+	Flood string `json:"flood,omitempty"`
 	// Grid: one frame of the structure grid {type, flags, length, first octet, stream role, filler}
 	Grid *c17Grid `json:"grid,omitempty"`
 }
@@ -285,6 +287,28 @@ func c17Exec(cs c17Case) (*fw.Violation, *harness.Server) {
 			finishNew()
 		}
 		shape = "grid-" + peer.TypeName(cs.Grid.Type)
+	case "flood":
+		// a peer that has stopped reading keeps sending frames each of which is owed an answer (more of them than any
+		// of the server's queues holds), then goes away
+		h.Send(peer.Preface)
+		h.SendFrames(peer.Settings())
+		h.C.TakeAll()
+		h.C.SetOutCapacity(1)
+		for i := 0; i < cs.K && !h.Returned; i++ {
+			switch cs.Flood {
+			case "ping":
+				h.SendFrames(peer.Ping(false, [8]byte{byte(i)}))
+			case "settings":
+				h.SendFrames(peer.Settings(peer.Setting{ID: peer.SInitialWindowSize, Val: uint32(1000 + i)}))
+			case "requests":
+				id := uint32(2*i + 1)
+				h.SendFrames(peer.Headers(id, reqBlock(id, "GET"), peer.HeadersOpt{EndStream: true, EndHeaders: true, Pad: -1}))
+				finishNew()
+			case "rst-on-idle", "unknown-stream-data":
+				h.SendFrames(peer.Ping(false, [8]byte{byte(i)}))
+			}
+		}
+		shape = "flood-" + cs.Flood + "-peer-not-reading"
 	case "writefail":
 		h.C.WriteFailAt = cs.K
 		h.Send(peer.Preface)
@@ -475,6 +499,14 @@ func runC17(c *fw.Ctx) {
 	}
 	c.Bound["grid_frames"] = ng
 	c.Family("grid")
+	for _, fl := range []string{"ping", "settings", "requests"} {
+		for _, k := range []int{1, 10, 127, 128, 129, 140, 300} {
+			for _, late := range []bool{false, true} {
+				do(c17Case{Family: "flood", Flood: fl, K: k, Late: late})
+			}
+		}
+	}
+	c.Family("flood")
 	for k := 1; k <= 14; k++ {
 		for _, late := range []bool{false, true} {
 			do(c17Case{Family: "writefail", K: k, Late: late})
